@@ -71,8 +71,8 @@ def writeHeader (m : Msg) : Msg :=
   let m := { m with mem := writeAt m.mem 4 (put32 magicCookie) }
   { m with mem := writeAt m.mem 8 m.tid }
 
-/-- message.go `Add` -/
-def add (m : Msg) (t : Nat) (v : Bytes) : Msg :=
+/-- message.go `Add`, first half: reserve room for the TLV and write type, length and value -/
+def addHead (m : Msg) (t : Nat) (v : Bytes) : Msg :=
   let allocSize := attributeHeaderSize + v.length
   let first := messageHeaderSize + m.length
   let last := first + allocSize
@@ -82,16 +82,23 @@ def add (m : Msg) (t : Nat) (v : Bytes) : Msg :=
   let aLen := v.length % 65536      -- uint16(len(val))
   let m := { m with mem := writeAt m.mem first (put16 t) }
   let m := { m with mem := writeAt m.mem (first + 2) (put16 aLen) }
-  let m := { m with mem := writeAt m.mem (first + 4) v }
-  let m :=
-    if aLen % padding ≠ 0 then
-      let bytesToAdd := nearestPaddedValueLength v.length - v.length
-      let last := last + bytesToAdd
-      let m := m.grow last
-      let m := { m with mem := writeAt m.mem (last - bytesToAdd) (zeros bytesToAdd) }
-      let m := { m with len := last }
-      { m with length := w32 (m.length + bytesToAdd) }
-    else m
+  { m with mem := writeAt m.mem (first + 4) v }
+
+/-- message.go `Add`, the `if attr.Length%padding != 0` block: `last` is the current end of the TLV -/
+def addPad (m : Msg) (v : Bytes) (last : Nat) : Msg :=
+  let bytesToAdd := nearestPaddedValueLength v.length - v.length
+  let last := last + bytesToAdd
+  let m := m.grow last
+  let m := { m with mem := writeAt m.mem (last - bytesToAdd) (zeros bytesToAdd) }
+  let m := { m with len := last }
+  { m with length := w32 (m.length + bytesToAdd) }
+
+/-- message.go `Add` -/
+def add (m : Msg) (t : Nat) (v : Bytes) : Msg :=
+  let last := messageHeaderSize + m.length + (attributeHeaderSize + v.length)
+  let aLen := v.length % 65536
+  let m := m.addHead t v
+  let m := if aLen % padding ≠ 0 then m.addPad v last else m
   let m := { m with attrs := m.attrs ++ [(⟨t, aLen, v⟩ : RawAttr)] }
   m.writeLength
 
